@@ -167,7 +167,8 @@ def handle : Handler := fun op args impl =>
             let nb ← nb.toNat?
             let cs ← (cs.splitOn ",").mapM String.toNat?
             let total := cs.foldl (· + ·) 0
-            if nb < 1 || cs.length != n || total == 0 || nb > total then none else
+            -- `Rarefy` refuses nb ≥ total (nothing would be left out)
+            if nb < 1 || cs.length != n || total == 0 || nb ≥ total then none else
             let counted := (List.range n).filter fun i => cs.getD i 0 > 0
             let cmin := (counted.map fun i => cs.getD i 0).foldl Nat.min total
             some (key counted, enough (Float.ofNat cmin / Float.ofNat total) counted.length)
